@@ -3,7 +3,7 @@ package sm4
 // C12: SM4-GCM (sm4_gcm.go) against NIST SP 800-38D (zz_ref_gcm.go).
 
 var zzGcmIVLens = []int{12, 1, 8, 16, 17}
-var zzGcmIVLensT = []int{12, 1, 8, 16, 17, 33, 64}
+var zzGcmIVLensT = []int{12, 1, 8, 16, 17, 33}
 var zzGcmLens = []int{0, 1, 15, 16, 17, 32, 33}
 
 func zzGcmIVLenCount() int {
@@ -23,17 +23,19 @@ func zzGcmIVLen(s *zzSelT) int {
 // zzGcmIVLenNth is the i-th IV length of the thorough tier.
 func zzGcmIVLenNth(i int) int { return zzGcmIVLensT[i] }
 
-// zzGcmLenCount/zzGcmLen: a data length from {0,1,15,16,17,32,33} (quick) or, if sweep is set, every 0..40 (thorough).
+// zzGcmLenCount/zzGcmLen: a data length from {0,1,15,16,17,32,33} (quick) or, if sweep is set, {0,1,2,15,16,17,31,32,33,40} (thorough; every 0..40 does not finish within the 600 s budget).
+var zzGcmSweep = []int{0, 1, 2, 15, 16, 17, 31, 32, 33, 40}
+
 func zzGcmLenCount(sweep bool) int {
 	if vTier() == 1 && sweep {
-		return 41
+		return len(zzGcmSweep)
 	}
 	return len(zzGcmLens)
 }
 
 func zzGcmLen(s *zzSelT, sweep bool) int {
 	if vTier() == 1 && sweep {
-		return s.pick(41)
+		return zzGcmSweep[s.pick(len(zzGcmSweep))]
 	}
 	return zzGcmLens[s.pick(len(zzGcmLens))]
 }
@@ -122,24 +124,55 @@ func zzH_c12_addition() {
 //
 //verif:property C12
 //verif:expect-reach end
-//verif:bound one operand a unit vector e_i (quick: i in {0,1,7,8,63,64,120,127}; thorough: all 128), the other 128 symbolic bits; both roles
+//verif:bound one operand a unit vector e_i (quick: i in {0,1,7,8,63,64,120,127}; thorough: all 128), the other 128 symbolic bits; the unit vector as the second operand
 //verif:stub github.com/tjfoc/gmsm/sm4.findYi zzStubFindYi
 //verif:stub github.com/tjfoc/gmsm/sm4.addition zzStubAdditionInPlace
 //verif:unwind 3000
-func zzH_c12_gfmul_basis() {
+func zzH_c12_gfmul_basis_y() {
 	var i int
 	var s *zzSelT
 	if vTier() == 1 {
-		s = zzSel(128 * 2)
+		s = zzSel(128)
 		i = s.pick(128)
 	} else {
-		s = zzSel(8 * 2)
+		s = zzSel(8)
 		i = []int{0, 1, 7, 8, 63, 64, 120, 127}[s.pick(8)]
 	}
 	unit := make([]byte, 16)
 	unit[i/8] = 0x80 >> uint(i%8)
 	S := vBytes("S", 16, 16)
-	if s.pick(2) == 1 {
+	if true {
+		vAssert("gfmul-eq-alg1-unitY", refEqAnd(multiplication(S, unit), refGFMul(S, unit)))
+	} else {
+		vAssert("gfmul-eq-alg1-unitX", refEqAnd(multiplication(unit, S), refGFMul(unit, S)))
+	}
+	vReach("end")
+}
+
+// H12-gfmul-basis: multiplication(X, Y) == Algorithm 1 on (X, Y) in the standard's operand order,
+// for X any of the 128 unit vectors and Y arbitrary, and for Y any unit vector and X arbitrary.
+// Both sides are GF(2)-bilinear, so agreement on (e_i, .) for all i is agreement everywhere.
+//
+//verif:property C12
+//verif:expect-reach end
+//verif:bound one operand a unit vector e_i (quick: i in {0,1,7,8,63,64,120,127}; thorough: all 128), the other 128 symbolic bits; the unit vector as the first operand
+//verif:stub github.com/tjfoc/gmsm/sm4.findYi zzStubFindYi
+//verif:stub github.com/tjfoc/gmsm/sm4.addition zzStubAdditionInPlace
+//verif:unwind 3000
+func zzH_c12_gfmul_basis_x() {
+	var i int
+	var s *zzSelT
+	if vTier() == 1 {
+		s = zzSel(128)
+		i = s.pick(128)
+	} else {
+		s = zzSel(8)
+		i = []int{0, 1, 7, 8, 63, 64, 120, 127}[s.pick(8)]
+	}
+	unit := make([]byte, 16)
+	unit[i/8] = 0x80 >> uint(i%8)
+	S := vBytes("S", 16, 16)
+	if false {
 		vAssert("gfmul-eq-alg1-unitY", refEqAnd(multiplication(S, unit), refGFMul(S, unit)))
 	} else {
 		vAssert("gfmul-eq-alg1-unitX", refEqAnd(multiplication(unit, S), refGFMul(unit, S)))
@@ -200,7 +233,7 @@ func zzH_c12_incr() {
 //
 //verif:property C12
 //verif:expect-reach end
-//verif:bound H, A, C content symbolic; |A|, |C| each of {0,1,15,16,17,32,33} (quick) / every 0..40 (thorough); field multiplication abstract (same arbitrary function on both sides)
+//verif:bound H, A, C content symbolic; |A|, |C| each of {0,1,15,16,17,32,33} (quick) / {0,1,2,15,16,17,31,32,33,40} (thorough); field multiplication abstract (same arbitrary function on both sides)
 //verif:stub github.com/tjfoc/gmsm/sm4.multiplication zzStubMul
 //verif:unwind 4000
 func zzH_c12_ghash() {
@@ -268,7 +301,7 @@ func zzH_c12_y0() {
 //
 //verif:property C12
 //verif:expect-reach end
-//verif:bound key, IV, A, P content symbolic (IV bytes 0xff included); |IV| = 12, |A| in {0,17}, |P| in {0,1,16,17,33} (quick; {0,1,17} for the 17-byte IV) / |IV| every third of {12,1,8,16,17,33,64} starting at position 0, |A| in {0,1,17}, every |P| <= 40 (thorough); odd |P| through Sm4GCM, even |P| through GCMEncrypt; block cipher and field multiplication abstract (arbitrary permutation / function, the same on both sides)
+//verif:bound key, IV, A, P content symbolic (IV bytes 0xff included); |IV| = 12, |A| in {0,17}, |P| in {0,1,16,17,33} (quick; {0,1,17} for the 17-byte IV) / |IV| every third of {12,1,8,16,17,33} starting at position 0, |A| in {0,17}, |P| in {0,1,2,15,16,17,31,32,33,40} (thorough; a 64-byte IV and |A| = 1 were dropped: over the 600 s budget); odd |P| through Sm4GCM, even |P| through GCMEncrypt; block cipher and field multiplication abstract (arbitrary permutation / function, the same on both sides)
 //verif:outside inputs of 2^32 blocks (counter wrap inside one message; the one-step counter function is H12-incr)
 //verif:stub github.com/tjfoc/gmsm/sm4.generateSubKeys zzStubSubKeys
 //verif:stub (*github.com/tjfoc/gmsm/sm4.Sm4Cipher).Encrypt zzStubEncrypt
@@ -280,7 +313,7 @@ func zzH_c12_seal_iv12() { zzSealCore(0) }
 //
 //verif:property C12
 //verif:expect-reach end
-//verif:bound key, IV, A, P content symbolic (IV bytes 0xff included); |IV| = 8, |A| in {0,17}, |P| in {0,1,16,17,33} (quick; {0,1,17} for the 17-byte IV) / |IV| every third of {12,1,8,16,17,33,64} starting at position 1, |A| in {0,1,17}, every |P| <= 40 (thorough); odd |P| through Sm4GCM, even |P| through GCMEncrypt; block cipher and field multiplication abstract (arbitrary permutation / function, the same on both sides)
+//verif:bound key, IV, A, P content symbolic (IV bytes 0xff included); |IV| = 8, |A| in {0,17}, |P| in {0,1,16,17,33} (quick; {0,1,17} for the 17-byte IV) / |IV| every third of {12,1,8,16,17,33} starting at position 1, |A| in {0,17}, |P| in {0,1,2,15,16,17,31,32,33,40} (thorough; a 64-byte IV and |A| = 1 were dropped: over the 600 s budget); odd |P| through Sm4GCM, even |P| through GCMEncrypt; block cipher and field multiplication abstract (arbitrary permutation / function, the same on both sides)
 //verif:outside inputs of 2^32 blocks (counter wrap inside one message; the one-step counter function is H12-incr)
 //verif:stub github.com/tjfoc/gmsm/sm4.generateSubKeys zzStubSubKeys
 //verif:stub (*github.com/tjfoc/gmsm/sm4.Sm4Cipher).Encrypt zzStubEncrypt
@@ -292,7 +325,7 @@ func zzH_c12_seal_iv8() { zzSealCore(1) }
 //
 //verif:property C12
 //verif:expect-reach end
-//verif:bound key, IV, A, P content symbolic (IV bytes 0xff included); |IV| = 17, |A| in {0,17}, |P| in {0,1,16,17,33} (quick; {0,1,17} for the 17-byte IV) / |IV| every third of {12,1,8,16,17,33,64} starting at position 2, |A| in {0,1,17}, every |P| <= 40 (thorough); odd |P| through Sm4GCM, even |P| through GCMEncrypt; block cipher and field multiplication abstract (arbitrary permutation / function, the same on both sides)
+//verif:bound key, IV, A, P content symbolic (IV bytes 0xff included); |IV| = 17, |A| in {0,17}, |P| in {0,1,16,17,33} (quick; {0,1,17} for the 17-byte IV) / |IV| every third of {12,1,8,16,17,33} starting at position 2, |A| in {0,17}, |P| in {0,1,2,15,16,17,31,32,33,40} (thorough; a 64-byte IV and |A| = 1 were dropped: over the 600 s budget); odd |P| through Sm4GCM, even |P| through GCMEncrypt; block cipher and field multiplication abstract (arbitrary permutation / function, the same on both sides)
 //verif:outside inputs of 2^32 blocks (counter wrap inside one message; the one-step counter function is H12-incr)
 //verif:stub github.com/tjfoc/gmsm/sm4.generateSubKeys zzStubSubKeys
 //verif:stub (*github.com/tjfoc/gmsm/sm4.Sm4Cipher).Encrypt zzStubEncrypt
@@ -322,9 +355,9 @@ func zzSealCore(ivSel int) {
 				mine++
 			}
 		}
-		s := zzSel(mine * 3 * zzGcmLenCount(true))
+		s := zzSel(mine * 2 * zzGcmLenCount(true))
 		n = zzGcmIVLenNth(ivSel + 3*s.pick(mine))
-		la = []int{0, 1, 17}[s.pick(3)]
+		la = []int{0, 17}[s.pick(2)]
 		lp = zzGcmLen(s, true)
 	}
 	viaSm4GCM := lp%2 == 1 // odd |P| through Sm4GCM, even |P| through GCMEncrypt directly
@@ -363,7 +396,7 @@ func zzSealCore(ivSel int) {
 //
 //verif:property C12
 //verif:expect-reach end
-//verif:bound key, IV, A, C content symbolic; |IV| = 12; |A| in {0,17}; |C| each of {0,1,15,16,17,32,33} (quick) / every 0..40 (thorough); C with 0 or 16 bytes of spare capacity behind it; block cipher and multiplication abstract
+//verif:bound key, IV, A, C content symbolic; |IV| = 12; |A| in {0,17}; |C| each of {0,1,15,16,17,32,33} (quick) / {0,1,2,15,16,17,31,32,33,40} (thorough); C with 0 or 16 bytes of spare capacity behind it; block cipher and multiplication abstract
 //verif:stub github.com/tjfoc/gmsm/sm4.generateSubKeys zzStubSubKeys
 //verif:stub (*github.com/tjfoc/gmsm/sm4.Sm4Cipher).Encrypt zzStubEncrypt
 //verif:stub github.com/tjfoc/gmsm/sm4.multiplication zzStubMul
